@@ -11,7 +11,7 @@ from . import refmath as R
 
 BO = dict(ADD=0, AVERAGE_POOL_2D=1, CONCATENATION=2, CONV_2D=3, DEPTHWISE_CONV_2D=4, FULLY_CONNECTED=9, LOGISTIC=14, MAX_POOL_2D=17, MUL=18, RELU=19, RELU_N1_TO_1=20, RELU6=21,
           RESHAPE=22, RESIZE_BILINEAR=23, SOFTMAX=25, TANH=28, CUSTOM=32, PAD=34, TRANSPOSE=39, MEAN=40, SUB=41, SQUEEZE=43, STRIDED_SLICE=45, SPLIT=49, MAXIMUM=55, MINIMUM=57,
-          NEG=59, SLICE=65, SPLIT_V=102, TRANSPOSE_CONV=67, EXPAND_DIMS=70, RESIZE_NEAREST_NEIGHBOR=97, LEAKY_RELU=98, ABS=101, REVERSE_V2=105, QUANTIZE=114, HARD_SWISH=117, FLOOR_DIV=90)
+          NEG=59, SLICE=65, SPLIT_V=102, TRANSPOSE_CONV=67, EXPAND_DIMS=70, RESIZE_NEAREST_NEIGHBOR=97, LEAKY_RELU=98, ABS=101, REVERSE_V2=105, QUANTIZE=114, HARD_SWISH=117, FLOOR_DIV=90, DEQUANTIZE=6)
 NAME = {v: k for k, v in BO.items()}
 RANGE = {"int8": (-128, 127), "uint8": (0, 255), "int16": (-32768, 32767), "int32": (-(2 ** 31), 2 ** 31 - 1)}
 APPROX = {"LOGISTIC", "TANH", "LEAKY_RELU", "HARD_SWISH", "SOFTMAX", "MEAN", "RESIZE_BILINEAR", "RESIZE_NEAREST_NEIGHBOR", "AVERAGE_POOL_2D"}
@@ -125,7 +125,7 @@ class Interp:
         for ti, val in zip(op.outputs, outs):
             T = self.sg.tensors[ti]
             lo, hi = RANGE.get(T.dtype, (None, None))
-            val = np.asarray(val, dtype=np.int64).reshape(T.shape)
+            val = np.asarray(val, dtype=np.float64 if T.dtype.startswith("float") else np.int64).reshape(T.shape)
             if lo is not None and (val.min(initial=0) < lo or val.max(initial=0) > hi):
                 raise AssertionError("reference produced out-of-range value for %s" % T.name)
             self.vals[ti] = val
@@ -408,6 +408,11 @@ class Interp:
             raise Unsupported("abs with requantisation")
         lo, hi = RANGE[odt]
         return np.clip(np.abs(self.get(op.inputs[0]) - zx[0]) + zo[0], lo, hi)
+
+    def op_DEQUANTIZE(self, op):
+        sx, zx, dt = self.q(op.inputs[0])
+        x = self.get(op.inputs[0])
+        return (np.float32(sx[0]) * (x - zx[0]).astype(np.float32)).astype(np.float64)  # the reference kernel: scale * (value - zero_point) in float32
 
     def op_QUANTIZE(self, op):
         sx, zx, dt = self.q(op.inputs[0])
